@@ -225,6 +225,33 @@ def r3(ctx, rep):
                     rep.bad(key, f"the error reason is the run-time value `{show(arg, maxdepth=4)}`, which is not known to be non-empty (not reviewed)", file=f["file"], line=n["l"], fn=f["path"])
 
 
+def source_id_reader(ctx, rep):
+    """The id stamped into the spans of a file is the one SourceTree.source_ids holds for that file (single source of truth);
+    the error renderer resolves spans through that table."""
+    import guards
+    syn = ctx.syn
+    f = syn.fn("parser::parse", crate="prqlc")
+    par = guards.parents(f["body"])
+    calls_ps = [n for n in walk(f["body"]) if n.get("k") == "call" and last_seg(show(n["f"])) == "parse_source" and len(n["a"]) >= 2]
+    if len(calls_ps) != 1:
+        raise AnchorMissing("parser::parse: one call of parse_source(content, id)")
+
+    def slice_text(e, depth=0):
+        out = [show(e, maxdepth=10)]
+        if depth < 4:
+            for x in walk(e):
+                if x.get("k") == "path" and "::" not in x["p"]:
+                    for d in guards.visible_defs(par, calls_ps[0], x["p"]):
+                        out += slice_text(d, depth + 1)
+        return out
+    txt = " ; ".join(slice_text(calls_ps[0]["a"][1]))
+    counter = any(w in txt for w in ("enumerate", "index", "+ 1", "len()"))
+    rep.check("source_ids" in txt and not ("enumerate" in show(calls_ps[0]["a"][1], maxdepth=6)), "reader:parse",
+              f"the source id given to parse_source must be looked up in `file_tree.source_ids` (found: `{txt[:160]}`): an id derived from the position of the file in a list "
+              "disagrees with the table whenever the files were enumerated in another order, and errors are then located in the wrong file or lose their location",
+              file=f["file"], line=calls_ps[0]["l"], fn=f["path"])
+
+
 def r4(ctx, rep):
     rep.rule("C13.R4", "source ids: one writer, unknown ids skipped", floor=3)
     syn = ctx.syn
@@ -247,6 +274,7 @@ def r4(ctx, rep):
         if n.get("k") == "local" and n.get("else") is not None and "sources.source_ids.get(&span.source_id)" in show(n.get("init"), maxdepth=8):
             skip = any(x.get("k") == "continue" for x in walk(n["else"]))
     rep.check(skip, "unknown-id-skipped", "an error whose source id is not in the tree must be left without location (continue), not panic", file=c["file"], line=c["l"], fn=c["path"])
+    source_id_reader(ctx, rep)
     # ids are assigned 1.. in insertion order from the map's length (unique)
     ins = syn.fn("SourceTree::insert", crate="prqlc")
     rep.check("self.source_ids.keys().max()" in show_stmts(ins["body"], maxdepth=10) or "max()" in show_stmts(ins["body"], maxdepth=10), "fresh-id",
